@@ -315,12 +315,12 @@ def build_case(rng, backend: str, depth: int) -> Case:
         add("fuseA-" + name, Vr.place(rng, fa, mdt, "bottom"), {"kind": "fuse", "q": qc, "q2": fa, "path": list(p), "z": "z_f"}, strict=False)
         fb = Vr.fuse_at(qc, p, "B", "z_f")
         if fb is not None:
-            add("fuseB-" + name, Vr.place(rng, fb, mdt, "bottom"), {"kind": "nf", "q": qc, "q2": fb}, strict=False)
-    us = Vr.unfusable(q)
+            add("fuseB-" + name, Vr.place(rng, fb, mdt, "bottom"), {"kind": "nf", "q": qc, "q2": fb, "path": list(p), "sep": qc}, strict=False)
+    us = Vr.unfusable(qc)
     if us:
         p, name = rng.choice(us)
-        u = Vr.unfuse_at(q, p, "y_u")
-        add("unfuse-" + name, Vr.place(rng, u, mdt, "bottom"), {"kind": "nf", "q": q, "q2": u}, strict=False)
+        u = Vr.unfuse_at(qc, p, "y_u")
+        add("unfuse-" + name, Vr.place(rng, u, mdt, "bottom"), {"kind": "nf", "q": qc, "q2": u, "path": list(p), "sep": u}, strict=False)
     # call style
     s = Vr.restyle(rng, q)
     add("style", Vr.place(rng, s, mdt, "bottom"), {"kind": "style", "q": q, "q2": s})
@@ -392,7 +392,10 @@ def rel_request(T, rel: Dict[str, Any]) -> Dict[str, Any]:
     r = {"op": "variant", "kind": rel["kind"], "q": T.to_json(rel["q"]), "q2": T.to_json(rel["q2"])}
     if "path" in rel:
         r["path"] = rel["path"]
+    if "z" in rel:
         r["z"] = rel["z"]
+    if "sep" in rel:
+        r["sep"] = T.to_json(rel["sep"])
     return r
 
 
@@ -407,15 +410,15 @@ def decide_variant(v: Dict[str, Any], ans: Dict[str, Any], commuting: bool) -> O
         return "not-related"
     if rel.get("need") == "commuting" and not (commuting or ans.get("sameOrder", False)):
         return "excluded:metadata-order"
-    if ans.get("argNameRisk"):
-        return "excluded:arg-names"
+    if not ans.get("captureFree", False):
+        # func_adl's simplifier captures a name in one of the two queries (listed findings F2, F2b, F3, F10)
+        why = "shadowed-redex-parameter" if ans.get("shadowRisk") else "arg_N-name" if ans.get("argNameRisk") else "other"
+        return "excluded:capture(" + why + ")"
     if ans.get("aliasRisk"):
         return "excluded:shared-node-rewrite"
-    if v["kind"].startswith(("alpha", "combined", "wire+")) and ans.get("shadowRisk"):
-        return "excluded:shadow-capture"
     if rel["kind"] in ("fuse", "nf"):
-        if ans.get("shadowRisk"):
-            return "excluded:shadow-capture"
+        if not ans.get("siteOk", False):
+            return "excluded:fusion-site-over-select/where"
         if not ans.get("sameNF", False):
             return "excluded:fusion-changes-normal-form"
     return None
@@ -729,8 +732,8 @@ def run(ctx):
     quick = ctx.tier == "quick"
     stack_stream(ctx, 300 if quick else 3000)
     procmd_stream(ctx, 40 if quick else 400)
-    nq = 60 if quick else 700
-    batch = 60 if quick else 100
+    nq = 60 if quick else 240
+    batch = 60 if quick else 40
     done = 0
     while done < nq:
         cases: List[Case] = []
